@@ -234,6 +234,8 @@ def rename_attributes(tree, ref):
         missing = [w for w in want if w not in have]
         if not unknown or len(unknown) != len(missing):
             continue
+        if not all(u.startswith('_') and w.startswith('_') for u, w in zip(unknown, missing)):
+            continue            # public attributes are part of the interface of other modules: not a local rename
         mapping = dict(zip(unknown, missing))
         for node in ast.walk(tree):
             if isinstance(node, ast.Attribute) and node.attr in mapping:
@@ -300,6 +302,11 @@ def inline_constants(tree, ref):
                     continue
                 if isinstance(v, (int, float, str, bytes, tuple)) and not isinstance(v, bool):
                     cenv[t] = v
+        for q2, c2 in classes(tree):
+            if c2 is not c:
+                for st2 in c2.body:
+                    for t2 in _targets(st2):
+                        cenv.pop(t2, None)          # possibly an override in a subclass: self.NAME is not this value for every instance
         if not cenv:
             continue
         # a class constant that is also stored as an instance attribute somewhere is not a constant
@@ -343,6 +350,7 @@ def _bind(helper, call, skip_first):
             return None
         given[k.arg] = k.value
     stored = _stores(helper.body)
+    body0 = helper.body[1:] if _has_doc(helper.body) else helper.body
     sub, lead = {}, []
     for p in params:
         if p in given:
@@ -360,7 +368,12 @@ def _bind(helper, call, skip_first):
         if isinstance(v, ast.Name) and v.id == p:
             continue
         uses = sum(1 for x in helper.body for n in ast.walk(x) if isinstance(n, ast.Name) and n.id == p and isinstance(n.ctx, ast.Load))
-        if p not in stored and (_simple_arg(v) or (uses <= 1 and _pure(v, allow_self=True))):
+        # an argument is evaluated before the body runs: only an expression whose value the body cannot change may move into the body
+        stable = isinstance(v, ast.Constant) or (isinstance(v, ast.Name) and v.id not in stored) or \
+            (isinstance(v, ast.UnaryOp) and isinstance(v.operand, ast.Constant))
+        first_stmt_only = uses == 1 and _pure(v, allow_self=True) and bool(body0) and any(
+            isinstance(n, ast.Name) and n.id == p for root in _stmt_exprs(body0[0]) for n in ast.walk(root))
+        if p not in stored and (stable or first_stmt_only):
             sub[p] = v
         else:
             lead.append(ast.copy_location(ast.Assign(targets=[ast.Name(id=p, ctx=ast.Store())], value=copy.deepcopy(v), lineno=call.lineno), call))
@@ -547,6 +560,9 @@ def inline_helpers(tree, ref):
             # no recursion
             if any(isinstance(n, ast.Call) and _callee(n, cls_q) == short for n in ast.walk(helper)):
                 continue
+            # a method of the same name in another class of the module may override it: self.<name>() is then not this body
+            if cls_q is not None and any(q2 != q and q2.rsplit('.', 1)[-1] == short for q2, _ in fl):
+                continue
             for cq, caller in fl:
                 if caller is helper:
                     continue
@@ -692,9 +708,11 @@ def inline_temps(tree, path, ref_locals):
                 between = block[i + 1:max(use_idx) + 1]
                 if any(isinstance(n, ast.Name) and isinstance(n.ctx, (ast.Store, ast.Del)) and n.id in reads for s_ in between for n in ast.walk(s_)):
                     continue
-                # uses must come after the definition and in its block (or nested below it)
-                if any((u.lineno, u.col_offset) < (st.lineno, st.col_offset) for u in uses):
+                # a value that reads object state (attributes, items) must not move across a statement that may change that state
+                reads_state = any(isinstance(n, (ast.Attribute, ast.Subscript)) for n in ast.walk(st.value))
+                if reads_state and _state_may_change(block[i + 1:max(use_idx)], {n.id for n in ast.walk(st.value) if isinstance(n, ast.Name)}):
                     continue
+                # uses must come after the definition and in its block (or nested below it)
                 following = block[i + 1:]
                 if not all(any(u is x for s in following for x in ast.walk(s)) for u in uses):
                     continue
@@ -709,6 +727,31 @@ def inline_temps(tree, path, ref_locals):
             if not progressed:
                 break
     return total
+
+
+def _root(node):
+    while isinstance(node, (ast.Attribute, ast.Subscript)):
+        node = node.value
+    return node.id if isinstance(node, ast.Name) else None
+
+
+def _state_may_change(stmts, roots):
+    """May one of ``stmts`` change an attribute/item reachable from the names ``roots``?  (stores through those names, or calls that
+    are not known to be pure and get one of them as receiver or argument; any impure call when ``self`` is among them.)"""
+    for s_ in stmts:
+        for n in ast.walk(s_):
+            if isinstance(n, (ast.Attribute, ast.Subscript)) and isinstance(n.ctx, (ast.Store, ast.Del)) and _root(n) in roots:
+                return True
+            if isinstance(n, ast.Call):
+                t = _txt(n.func)
+                if t in PURE_FUNCS or (isinstance(n.func, ast.Attribute) and n.func.attr in PURE_METHODS):
+                    continue
+                if 'self' in roots:
+                    return True
+                recv = _root(n.func) if isinstance(n.func, ast.Attribute) else None
+                if recv in roots or any(isinstance(x, ast.Name) and x.id in roots for a in list(n.args) + [k.value for k in n.keywords] for x in ast.walk(a)):
+                    return True
+    return False
 
 
 def _inside_loop(fn, stmt):
